@@ -78,6 +78,8 @@ pub enum Step {
     SysMutate { who: usize, kind: usize, dt: i64 },
     Restart { node: usize },
     Grid,
+    /// an instance that has never seen any room imports every room from the others, answers the decision grid, restarts, answers again
+    LateJoin,
 }
 
 // ---------------------------------------------------------------------------------------
@@ -163,6 +165,8 @@ struct Ctx {
     now: i64,
     any: bool,
     ops: u64,
+    /// rows already reported as not verifying (C06), so that one bad row gives one report
+    sig_reported: std::collections::HashSet<String>,
 }
 
 fn has(cfg: &Cfg, o: &str) -> bool {
@@ -251,6 +255,10 @@ pub fn generate(seed: u64, property: &str, thorough: bool) -> Trace {
             steps.push(Step::Grid);
             steps.push(Step::Restart { node: rw.usize(nodes) });
             steps.push(Step::Grid);
+            continue;
+        }
+        if c10 && rw.chance(1, 12) {
+            steps.push(Step::LateJoin);
             continue;
         }
         match rw.weighted(&w) {
@@ -402,6 +410,19 @@ pub fn directed(property: &str) -> Vec<Trace> {
                 ],
             ));
             out.push(mk(
+                "C10 several entries per key (admin disabled, user re-enabled, right replaced), then an instance that never saw the room imports it",
+                2,
+                vec![
+                    Step::NewRoom { who: 0, room: 0, admins: vec![0, 1], groups: vec![own_only(vec![1])], dt: 20 },
+                    Step::AddAdmin { who: 0, room: 0, key: 1, enabled: false, dt: 3_600_000 },
+                    Step::AddUser { who: 0, room: 0, group: 0, key: 1, enabled: false, dt: DAY_MS, nb: false },
+                    Step::AddUser { who: 0, room: 0, group: 0, key: 1, enabled: true, dt: DAY_MS, nb: false },
+                    Step::AddRight { who: 0, room: 0, group: 0, right: RightSpec { ent: 0, own: false, all: false }, dt: DAY_MS, nb: false },
+                    Step::LateJoin,
+                    Step::Grid,
+                ],
+            ));
+            out.push(mk(
                 "C10 rights replaced over time and an admin disabled, then restart of the importer",
                 2,
                 vec![
@@ -414,7 +435,23 @@ pub fn directed(property: &str) -> Vec<Trace> {
                 ],
             ));
         }
-        "C10x" => {}
+        "C06" => {
+            out.push(mk(
+                "C06 a member with the all-rows right removes a reference from, updates, moves and deletes rows written by somebody else: everything stored still verifies",
+                2,
+                vec![
+                    Step::NewRoom { who: 0, room: 0, admins: vec![0], groups: vec![full(vec![0, 1])], dt: 20 },
+                    Step::Create { who: 0, row: 0, room: 0, ent: 0, dt: DAY_MS },
+                    Step::Create { who: 0, row: 1, room: 0, ent: 0, dt: 1000 },
+                    Step::RefAdd { who: 0, row: 0, target: 1, dt: 1000 },
+                    Step::RefDel { who: 1, row: 0, target: 1, dt: DAY_MS },
+                    Step::RefAdd { who: 1, row: 0, target: 1, dt: 1000 },
+                    Step::Update { who: 1, row: 1, dt: DAY_MS },
+                    Step::Delete { who: 1, row: 1, dt: DAY_MS },
+                ],
+            ));
+        }
+        "C10late" => {}
         "C12" => {
             out.push(mk(
                 "C12 reference deletion on a source row last written by someone else",
@@ -449,7 +486,7 @@ pub fn execute(trace: &Trace, keep_log: bool) -> (crate::kit::RunReport, Vec<Str
     let cfg: Cfg = serde_json::from_value(trace.cfg.clone()).expect("bad rights cfg");
     let steps: Vec<Step> = trace.steps.iter().filter_map(|s| serde_json::from_value(s.clone()).ok()).collect();
     let w = World::new("rights", trace.seed, keep_log);
-    let mut c = Ctx { w, cfg, rooms: vec![], rows: vec![], now: T0, any: false, ops: 0 };
+    let mut c = Ctx { w, cfg, rooms: vec![], rows: vec![], now: T0, any: false, ops: 0, sig_reported: Default::default() };
     if let Err(e) = setup(&mut c) {
         c.w.harness_error(format!("setup: {e}"));
         return c.w.finish();
@@ -566,6 +603,25 @@ fn barrier(c: &mut Ctx) -> Result<(), String> {
     for nn in &mut c.w.nodes {
         let _ = nn.drain_events();
     }
+    for i in 0..n {
+        check_stored_signatures(c, i, "after-synchronisation")?;
+    }
+    Ok(())
+}
+
+/// C06: every stored row, reference and deletion record verifies against its own signature exactly as stored
+fn check_stored_signatures(c: &mut Ctx, node: usize, when: &str) -> Result<(), String> {
+    if !has(&c.cfg, "C06") {
+        return Ok(());
+    }
+    let bad = oracle::verify_stored_signatures(&c.w.nodes[node].oracle_conn()?)?;
+    c.w.probe("c06_signature_sweeps");
+    for (kind, what) in bad {
+        if !c.sig_reported.insert(what.clone()) {
+            continue;
+        }
+        c.w.violation("C06", &format!("stored-signature-invalid/{kind}/{when}"), format!("n{node} stores a {kind} whose signature does not verify against it as stored: {what}"));
+    }
     Ok(())
 }
 
@@ -585,6 +641,9 @@ fn attempt(c: &mut Ctx, who: usize, shape: &str, expected: Option<bool>, missing
     c.ops += 1;
     c.any = true;
     c.w.log.sched(format!("{shape} by n{who} expected={expected:?} got={}", res.is_ok()));
+    if res.is_ok() {
+        check_stored_signatures(c, who, &format!("after-local-{}", shape.split(':').next().unwrap_or(shape)))?;
+    }
     if let Err(e) = &res {
         c.w.log.log(format!("  refused: {e}"));
     }
@@ -985,7 +1044,70 @@ fn exec_step(c: &mut Ctx, st: &Step) -> Result<(), String> {
                 grid_check(c, None, "live-or-imported")?;
             }
         }
+        Step::LateJoin => {
+            if has(&c.cfg, "C10") {
+                late_join(c)?;
+            }
+        }
     }
+    Ok(())
+}
+
+/// C10: "received from a peer by an instance that had never seen it". A fresh instance (no identity of the
+/// histories) pulls every room from every node, must then decide like the history, also after its own restart.
+fn late_join(c: &mut Ctx) -> Result<(), String> {
+    let n = c.cfg.nodes;
+    let j = c.w.nodes.len();
+    if j >= dv::MAX_NODES || c.rooms.iter().all(|r| r.is_none()) {
+        return Ok(());
+    }
+    let seed = c.w.report.seed;
+    let mut conf = dv::Configuration::default();
+    conf.parallelism = 1;
+    conf.enable_multicast = false;
+    conf.enable_beacons = false;
+    let mut node = SimNode::new(j, &format!("late{}", c.ops), 200, &c.w.root, MODEL, conf, c.now, seed + 77);
+    node.start()?;
+    c.w.nodes.push(node);
+    c.w.fault("late_joiner");
+    let mut imported = 0;
+    let mut refused = 0;
+    for s in 0..n {
+        for r in 0..c.rooms.len() {
+            let Some(room) = c.rooms[r].as_ref() else { continue };
+            let uid = room.uid;
+            let (pn, sn) = c.w.two(j, s);
+            let has_def = {
+                let conn = sn.oracle_conn()?;
+                dv::RoomDefinitionLog::get(&uid, &conn).map(|x| x.is_some()).unwrap_or(false)
+            };
+            if !has_def {
+                continue;
+            }
+            let (end, mut sess) = net::pull(pn, sn, uid, None).map_err(|e| format!("late joiner pull hung: {e:?}"))?;
+            sess.abandon();
+            match end {
+                SessionEnd::Ok => imported += 1,
+                SessionEnd::Err(e) => {
+                    c.w.log.log(format!("late joiner pull n{s} room{r}: {e}"));
+                    refused += 1;
+                    let what = if e.contains("more recent") || e.contains("before an existing") { "entries-out-of-order" } else { "other" };
+                    c.w.violation("C10", &format!("import-refused/room-not-seen-before/{what}"), format!("an instance that never saw room{r} cannot import it from n{s}, which built or imported it: {e}"));
+                }
+                _ => {}
+            }
+        }
+    }
+    let _ = c.w.nodes[j].drain_events();
+    c.w.log.sched(format!("late-join imported={imported}"));
+    if imported > 0 && refused == 0 {
+        grid_check(c, Some(j), "room-not-seen-before")?;
+        c.w.nodes[j].stop();
+        c.w.nodes[j].start()?;
+        grid_check(c, Some(j), "room-not-seen-before-then-restart")?;
+    }
+    let mut node = c.w.nodes.pop().unwrap();
+    node.stop();
     Ok(())
 }
 
@@ -1189,11 +1311,13 @@ fn grid_check(c: &mut Ctx, only: Option<usize>, path: &str) -> Result<(), String
         dates.push(c.now + DAY_MS);
         dates.sort();
         dates.dedup();
-        for node in 0..n {
+        for node in 0..c.w.nodes.len() {
             if let Some(o) = only {
                 if o != node {
                     continue;
                 }
+            } else if node >= n {
+                continue;
             }
             let auth = c.w.nodes[node].dbh().auth.clone();
             let uid = rr.uid;
